@@ -258,7 +258,8 @@ def validate_traces(pid, traces, verdict, workers=8, chunk_events=6000, sig_fn=N
         P = h["prog"]
         bad_ev = json.loads(t[off - 1]) if off - 1 < len(t) else {"ev": "<trace ended before the run terminated>"}
         sig = (sig_fn(h, bad_ev) if sig_fn else None) or default_sig(h, bad_ev)
-        verdict.violation(sig, {"kind": "trace_rejected", "prog": P, "plan": h["plan"], "gates": h["gates"],
+        verdict.violation(sig, {"kind": "trace_rejected", "prog": P, "plan": h["plan"], "gates": h["gates"], "sched": h.get("sched", []),
+                                "auto_release": h.get("auto_release", False), "count": h.get("count", False),
                                 "macro_source": G.program_fn("p", P), "trace": [json.loads(x) for x in t],
                                 "first_unmatched_index": off, "first_unmatched": bad_ev},
                           f"{G.macro_name(P)} depths={[len(b['steps']) for b in P['branches']]} plan={h['plan']}: "
